@@ -136,7 +136,7 @@ func main() {
 	report.StepSites = len(report.Sites)
 	if *out != "" {
 		b, _ := json.MarshalIndent(report, "", " ")
-		if err := os.WriteFile(*out, b, 0o644); err != nil {
+		if err := os.WriteFile(*out, b, 0644); err != nil {
 			fail("%v", err)
 		}
 	}
@@ -247,7 +247,7 @@ func instrumentPackage(p listPkg, imp types.Importer) {
 		if err := format.Node(&buf, fset, f); err != nil {
 			fail("print %s: %v", names[i], err)
 		}
-		if err := os.WriteFile(names[i], buf.Bytes(), 0o644); err != nil {
+		if err := os.WriteFile(names[i], buf.Bytes(), 0644); err != nil {
 			fail("%v", err)
 		}
 	}
@@ -259,7 +259,7 @@ func instrumentPackage(p listPkg, imp types.Importer) {
 			fmt.Fprintf(&b, "\t\t%q: &%s,\n", n, n)
 		}
 		b.WriteString("\t})\n}\n")
-		if err := os.WriteFile(filepath.Join(p.Dir, "zz_verif_globals.go"), []byte(b.String()), 0o644); err != nil {
+		if err := os.WriteFile(filepath.Join(p.Dir, "zz_verif_globals.go"), []byte(b.String()), 0644); err != nil {
 			fail("%v", err)
 		}
 		report.GlobalsRegistered += len(globalsNames)
